@@ -29,6 +29,7 @@ import QV.Proofs.WriterAbsStep
 import QV.Proofs.WriterWalk
 import QV.Proofs.WriterSegment
 import QV.Proofs.WriterCheckSession
+import QV.Proofs.WriterSessions
 
 namespace QV.C12
 open QV QV.Writer QV.ServerSafety
@@ -77,9 +78,11 @@ open QV QV.Writer QV.ServerSafety
   start below the name — `item_ptr_target` —, hence a label of an earlier occurrence; no pointer
   in `Disabled` items and in uncompressible RDATA). So `C12_full_without_clear_rrs_partial` is
   `C12_full` word for word for sessions without `clear_rrs`, with no premise.
-  STILL OPEN of `C12_full`: sessions that contain `clear_rrs` (the walk then also checks, at each
-  `clear_rrs`, the message finished just before it against the abstract state: needs the
-  segment-wise version of `walk_from_new` / `go_eq` with the `pre` messages of the observer). (d) is stated for limits of at
+  Sessions with `clear_rrs` are covered too: `C12_full_all_sessions_partial` is `C12_full` for every
+  session, with the MAC-size hypothesis asked at every prefix of the calls instead of only at the end.
+  STILL OPEN of `C12_full` as a single statement: that last difference — that a signing TSIG
+  configuration keeps its algorithm for the rest of the session (so that the MAC size known for the
+  final state is the size at every earlier `finish`). (d) is stated for limits of at
   most 65535 (RDLENGTH is a 16-bit field; the writer itself accepts larger buffers). The driver
   evaluates `checkSession` itself on 100 % of the generated sessions (model column and, on the
   implementation's octets, spec column of `waudit`). -/
@@ -757,6 +760,30 @@ theorem C12_full_without_clear_rrs_partial (buf : Bytes) (limit : Nat) (mode : C
   have h := checkSession_no_clear buf limit mode s ops mac hnew hr ht hlim hv hmac hno hsz
   rw [hm] at h
   exact h
+
+/-! ### `C12_full` for all sessions, `clear_rrs` included
+
+  `C12_full_all_sessions_partial`: the statement of `C12_full` (as corrected above) for every
+  session — any number of `clear_rrs` calls; at each of them `checkSession` judges the message
+  finished just before the call against the abstract state and continues from the questions on the
+  next message (`QV.Proofs.WriterSessions`: `walk_sessions`, induction over the segments; the
+  observer of the driver records exactly those messages: `go_all`). The one difference to `C12_full`
+  (hence `_partial`): the MAC-size hypothesis is asked at every point of the session where a signing
+  TSIG mode is configured (`hsz` for every prefix of the calls), not only for the final state — the
+  two agree because a TSIG configuration, once set, keeps its algorithm (`set_tsig` fails with
+  `AlreadyTsig`, `update_time_signed` changes the time only, the templates keep the algorithm);
+  that persistence is not proved here. -/
+theorem C12_full_all_sessions_partial (buf : Bytes) (limit : Nat) (mode : CMode) (s : State)
+    (ops : List Op) (mac : Option (List UInt8)) (hnew : Writer.new buf limit = .ok s)
+    (hr : Respects { w := { s with mode := mode } } ops) (ht : ∀ op ∈ ops, ApiTyped op) (hlim : limit ≤ 65535)
+    (hv : ∀ v, Op.setLimit v ∈ ops → v ≤ 65535) (hmac : MacLenOK (fun _ _ => mac.getD []))
+    (hsz : ∀ o1 o2, ops = o1 ++ o2 → ∀ ts, (run { w := { s with mode := mode } } o1).1.w.tsig = some ts →
+      isUnsigned ts.mode = false → (mac.getD []).length = (toATsig ts).macLen) :
+    let r := Driver.runModel { w := { s with mode := mode } } ops mac true
+    ∃ m, r.msg = some m ∧
+      Spec.Message.checkSession buf.size limit (Driver.toSpecMode mode) (ops.map Driver.toSpecOp)
+        r.statuses (r.pre ++ [m]) r.mac = "ok" :=
+  checkSession_all buf limit mode s ops mac hnew hr ht hlim hv hmac hsz
 
 /-- the pointer audit of the specification, alone: it passes on the message of every session
     without `clear_rrs` (typed calls, limits of at most 65535) — in every compression mode, with
